@@ -17,6 +17,21 @@ import numpy as np
 from mc.lib import Acc, maxabs
 
 SCALES = [2.0**-20, 1.0, 2.0**20]
+# index 3: a block whose Gram matrix overflows (float32: 2^100, float64:
+# 2^600).  That block itself is not judged; the *other* blocks must still be
+# updated exactly like separate tensors.
+OVF = 3
+
+
+def scale_of(i, dt):
+  if i == OVF:
+    return 2.0**100 if dt == np.float32 else 2.0**600
+  return SCALES[i]
+
+
+def with_fault(nb):
+  return [tuple(OVF if j == i else 1 for j in range(nb)) for i in range(nb)] \
+      if nb > 1 else []
 
 DS_LAYOUTS = {
     "4x3/b2": ([4, 3], 2),       # one blocked axis, 2 blocks
@@ -33,8 +48,10 @@ TF_LAYOUTS = {
     "6x2/b2": ([6, 2], 2),
     "4x4/b2": ([4, 4], 2),
 }
+# "first": a vector whose key sorts before the blocked tensor's, so that it
+# is visited first wherever the optimizer walks the flattened tree
 DS_COMPANIONS = {"small": ([2], 1.0), "large": ([7, 3], 1.0),
-                 "scaled": ([3, 2], 2.0**20)}
+                 "scaled": ([3, 2], 2.0**20), "first": ([5], 1.0)}
 TF_COMPANIONS = {"small": ([2, 2], 1.0), "other": ([4, 6], 1.0),
                  "scaled": ([2, 2], 2.0**20)}
 
@@ -63,6 +80,7 @@ def plan(tier, seed):
     vecs = list(itertools.product(range(3), repeat=nb))
     if nb > 4:   # 729 vectors: every vector with at most 3 non-unit scales
       vecs = [v for v in vecs if sum(1 for x in v if x != 1) <= 3]
+    vecs = vecs + with_fault(nb)
     for chunk in range(0, len(vecs), 27):
       tasks.append({"name": "ds/%s/v%d" % (name, chunk), "kind": "ds",
                     "layout": name, "vecs": vecs[chunk:chunk + 27],
@@ -86,7 +104,7 @@ def plan(tier, seed):
   for name in tf_l:
     shape, bs = TF_LAYOUTS[name]
     nb = len(block_slices(shape, bs))
-    vecs = list(itertools.product(range(3), repeat=nb))
+    vecs = list(itertools.product(range(3), repeat=nb)) + with_fault(nb)
     for chunk in range(0, len(vecs), 27):
       tasks.append({"name": "tf/%s/v%d" % (name, chunk), "kind": "tf",
                     "layout": name, "vecs": vecs[chunk:chunk + 27],
@@ -95,8 +113,9 @@ def plan(tier, seed):
   return {
       "tasks": tasks,
       "rule": "block layouts %s (distributed_shampoo) and %s (tearfree) x "
-              "every per-block scale vector over {2^-20,1,2^20} x 3 "
-              "companions x grafting {NONE, SGD} x {jit, pmap over 2 (4) "
+              "every per-block scale vector over {2^-20,1,2^20} (plus one "
+              "block at a time with an overflowing Gram matrix) x 4 "
+              "companions (one sorted first) x grafting {NONE, SGD} x {jit, pmap over 2 (4) "
               "devices against the separate-leaf jit run} x all histories over "
               "{gA,gB} up to depth %d; state = (layout, scale vector, "
               "history); non-trivial = scale vector with at least two "
@@ -176,6 +195,7 @@ def run_task(task):
       return {k: v[0] for k, v in u.items()}, s2
     return Opt, upd, params
 
+  cname = lambda c: "a" if c == "first" else "z"
   blk_shapes = {"b%02d" % i: list(base["gA"][sl].shape)
                 for i, sl in enumerate(slices)}
   runs = {}
@@ -183,7 +203,7 @@ def run_task(task):
   for graft in ("none", "sgd"):
     runs[("a", graft)] = mk(graft, {"w": shape})
     for c, (sh, _) in comps.items():
-      runs[("c" + c, graft)] = mk(graft, {"w": shape, "z": sh})
+      runs[("c" + c, graft)] = mk(graft, {"w": shape, cname(c): sh})
   runs[("b", "none")] = make("none", blk_shapes)
   hists = histories(task["depth"])
   sigbase = "C08|" + task["name"]
@@ -202,12 +222,13 @@ def run_task(task):
   for vec in task["vecs"]:
     S = np.ones(shape)
     for i, sl in enumerate(slices):
-      S[sl] = SCALES[vec[i]]
+      S[sl] = scale_of(vec[i], dt)
     gw = {e: (base[e] * S).astype(dt) for e in ("gA", "gB")}
     nontriv = len(set(vec)) > 1
+    faulty = [i for i in range(nb) if vec[i] == OVF]
     case0 = {"optimizer": "tearfree" if tf else "distributed_shampoo",
              "layout": task["layout"], "pmap_devices": D,
-             "block_scales": [SCALES[i] for i in vec]}
+             "block_scales": [scale_of(i, dt) for i in vec]}
     a_none = play(("a", "none"), lambda e: {"w": gw[e]})
     a_sgd = play(("a", "sgd"), lambda e: {"w": gw[e]})
     b_none = play(("b", "none"), lambda e: {"b%02d" % i: gw[e][sl]
@@ -225,6 +246,9 @@ def run_task(task):
         want = b_none[h]["b%02d" % i]
         concat[sl] = want
         got = a_none[h]["w"][sl]
+        if i in faulty:
+          acc.outcome("overflowing_block_not_judged")
+          continue
         if not np.all(np.isfinite(got)) or \
             maxabs(got - want) > 1e-3 * max(maxabs(want), 1e-300):
           acc.outcome("viol_block_vs_leaf")
@@ -235,7 +259,7 @@ def run_task(task):
                                           maxabs(want)), dict(case, block=i))
           ok = False
           break
-      if ok:
+      if ok and not faulty:
         g = gw[h[-1]].astype(np.float64)
         # tearfree emits -lr * step, so does distributed_shampoo
         cn = np.linalg.norm(concat)
@@ -256,14 +280,18 @@ def run_task(task):
     # (c) companions: the update of w must not depend on z
     for c in comps:
       for graft, aref in (("none", a_none), ("sgd", a_sgd)):
+        if faulty and graft == "sgd":
+          continue
         cres = play(("c" + c, graft), lambda e: {"w": gw[e],
-                                                  "z": cbase[c][e]})
+                                                  cname(c): cbase[c][e]})
         for h in hists:
           acc.transitions += 1
           want = aref[h]["w"]
           got = cres[h]["w"]
           bad = None
           for i, sl in enumerate(slices):
+            if i in faulty:
+              continue
             if maxabs(got[sl] - want[sl]) > 1e-3 * max(maxabs(want[sl]),
                                                         1e-300):
               bad = i
